@@ -99,6 +99,54 @@ func toolEvents(rng *rand.Rand, emit func(ev)) {
 	}
 }
 
+// chebApproxEvents: ChebyshevApproximation of x^k on [a, b] with Nodes >= k interpolates x^k exactly, so that the returned
+// polynomial, evaluated through its own change of basis, reproduces x^k at every point of the interval.
+func chebApproxEvents(emit func(ev)) {
+	for _, ab := range [][2]int64{{-1, 1}, {-2, 3}, {0, 4}, {-8, 8}, {1, 5}} {
+		for k := 0; k <= 5; k++ {
+			for _, nodes := range []int{k, k + 1, k + 4} {
+				if nodes == 0 {
+					continue
+				}
+				var itv bignum.Interval
+				itv.Nodes = nodes
+				itv.A = *new(big.Float).SetPrec(128).SetInt64(ab[0])
+				itv.B = *new(big.Float).SetPrec(128).SetInt64(ab[1])
+				f := func(x *big.Float) *big.Float {
+					y := new(big.Float).SetPrec(128).SetInt64(1)
+					for i := 0; i < k; i++ {
+						y.Mul(y, x)
+					}
+					return y
+				}
+				var p bignum.Polynomial
+				err, pan, msg := guarded(func() error { p = bignum.ChebyshevApproximation(f, itv); return nil })
+				e := ev{"ev": "chebapx", "a": ab[0], "b": ab[1], "k": k, "nodes": nodes, "deg": -1, "xs": []int64{}, "num": []int64{}, "ischeb": false, "err": err != nil, "panic": pan, "msg": msg}
+				if !pan {
+					e["deg"] = p.Degree()
+					e["ischeb"] = p.Basis == bignum.Chebyshev
+					xs, num := []int64{}, []int64{}
+					for x2 := 2 * ab[0]; x2 <= 2*ab[1]; x2++ {
+						var y *bignum.Complex
+						_, pan2, _ := guarded(func() error {
+							y = p.Evaluate(new(big.Float).SetPrec(128).Quo(new(big.Float).SetInt64(x2), new(big.Float).SetInt64(2)))
+							return nil
+						})
+						if pan2 || y == nil {
+							e["panic"] = true
+							break
+						}
+						v, _ := new(big.Float).Mul(y[0], new(big.Float).SetInt64(1<<10)).Float64()
+						xs, num = append(xs, x2), append(num, int64(v+0.5*sgnf(v)))
+					}
+					e["xs"], e["num"] = xs, num
+				}
+				emit(e)
+			}
+		}
+	}
+}
+
 func sgnf(f float64) float64 {
 	if f < 0 {
 		return -1
